@@ -366,6 +366,43 @@ Proof.
       * unfold enc_vals in *. cbn [map concat]. rewrite len_app. lia.
 Qed.
 
+(* re-encoding what was decoded is no longer than what was consumed *)
+Lemma dec_msg_len ty ks bs vs r : Forall kind_okv ks -> allb bs -> dec_msg ty ks bs = Ok (vs, r) ->
+  len (enc_msg ty vs) + len r <= len bs.
+Proof.
+  intros Hk Hb H. rewrite len_enc_msg. unfold dec_msg in H. destruct (ty =? T_Rstat).
+  - apply bind_ok in H as ([l r1] & H1 & H). cbn [fst snd] in H.
+    apply rd_int_inv in H1 as (-> & _ & Hr1); [|exact Hb].
+    apply dec_vals_inv in H as (_ & _ & _ & Hl); [|exact Hk|exact Hr1].
+    rewrite len_app, len_le. lia.
+  - destruct (ty =? T_Twstat).
+    2:{ apply dec_vals_inv in H as (_ & _ & _ & Hl); [lia|exact Hk|exact Hb]. }
+    destruct ks as [|k0 ks].
+    + injection H as <- <-. unfold enc_vals. cbn [map concat]. unfold len at 1. cbn [length]. lia.
+    + inversion Hk as [|? ? Hk1 Hk2]; subst.
+      apply bind_ok in H as ([v r1] & H1 & H). cbn [fst snd] in H.
+      apply bind_ok in H as ([l r2] & H2 & H). cbn [fst snd] in H.
+      apply bind_ok in H as ([vs' r3] & H3 & H). cbn [fst snd] in H. injection H as <- <-.
+      apply dec_val_inv in H1 as (_ & _ & Hr1 & Hl1); [|exact Hk1|exact Hb].
+      apply rd_int_inv in H2 as (-> & _ & Hr2); [|exact Hr1].
+      apply dec_vals_inv in H3 as (_ & _ & _ & Hl3); [|exact Hk2|exact Hr2].
+      rewrite len_app, len_le in Hl1.
+      unfold enc_vals in *. cbn [map concat]. rewrite len_app. lia.
+Qed.
+
+Theorem dec_fcall_len bs f : allb bs -> dec_fcall bs = Ok f -> len (enc_fcall f) <= len bs.
+Proof.
+  intros Hb H. unfold dec_fcall in H.
+  apply bind_ok in H as ([t r1] & H1 & H). cbn [fst snd] in H.
+  apply bind_ok in H as ([g r2] & H2 & H). cbn [fst snd] in H.
+  destruct (kinds_of_type t) as [ks|] eqn:K; [|discriminate].
+  apply bind_ok in H as ([vs r3] & H3 & H). cbn [fst snd] in H. injection H as <-.
+  apply rd_int_inv in H1 as (-> & _ & Hr1); [|exact Hb].
+  apply rd_int_inv in H2 as (-> & _ & Hr2); [|exact Hr1].
+  apply dec_msg_len in H3; [|eapply table_kinds_ok; exact K|exact Hr2].
+  unfold enc_fcall. cbn [fc_type fc_tag fc_fields]. rewrite !len_app, !len_le. lia.
+Qed.
+
 (* a decoded message is wire-representable *)
 Theorem dec_fcall_wf bs f : allb bs -> len bs < M32 - 16 -> dec_fcall bs = Ok f -> wf_fcall f = true.
 Proof.
